@@ -415,7 +415,7 @@ def C13():
                       "with_columns evaluating pl.col on its receiver); null is a single value"],
         assumptions=["the deeper levels of validate_data_sorting (composite string key; injectivity precondition) are not yet under contract in this check; "
                      "the page start indices handed to restore_page_context are proved to be the first rows of pages 2..P (unit ApplyDataPostProcessing)"],
-        replayers={"services/grouping_service.py::": R.replay_grouping}, design_ref="4/C13, A18")
+        replayers={"services/grouping_service.py::": R.replay_grouping, "encoding/unified_encoder.py::": R.replay_group_by_pipeline}, design_ref="4/C13, A18")
 
 
 def C20():
